@@ -95,6 +95,11 @@ public:
 
     ~ReusableArenaBlock()
     {
+        // A block that was allocated but never committed, because the
+        // constructor of the object threw an exception, does not hold
+        // an object, so put it back on the free list.
+        releaseUncommittedBlock();
+
         size_type removedObjects = 0;
 
         for (size_type i = 0;
@@ -202,15 +207,7 @@ public:
         assert(theObject != 0);
 
         // check if any uncommited block is there, add it to the list
-        if ( this->m_firstFreeBlock != this->m_nextFreeBlock )
-        {
-            // Return it to the pool of free blocks
-            void* const     p = this->m_objectBlock + this->m_firstFreeBlock;
-
-            new (p) NextBlock(this->m_nextFreeBlock);
-
-            this->m_nextFreeBlock = this->m_firstFreeBlock;
-        }
+        releaseUncommittedBlock();
 
         assert(ownsObject(theObject) == true);
         assert(shouldDestroyBlock(theObject));
@@ -246,6 +243,27 @@ public:
     }
 
 protected:
+
+    /*
+     * Return a block that was allocated, but not committed, to the
+     * free list.  allocateBlock() has already counted it.
+     */
+    void
+    releaseUncommittedBlock()
+    {
+        if ( this->m_firstFreeBlock != this->m_nextFreeBlock )
+        {
+            void* const     p = this->m_objectBlock + this->m_firstFreeBlock;
+
+            new (p) NextBlock(this->m_nextFreeBlock);
+
+            this->m_nextFreeBlock = this->m_firstFreeBlock;
+
+            assert(this->m_objectCount > 0);
+
+            --this->m_objectCount;
+        }
+    }
 
     /*
      * Determine if the block should be destroyed.  Returns true,
